@@ -8,13 +8,15 @@
 (* and whatever input arrives later is handled exactly as if the loop had   *)
 (* kept ticking through the gap.                                            *)
 (*                                                                          *)
-(* Written from the statement, not from the code.  Two judgements:          *)
+(* Written from the statement, not from the code.  Three judgements:        *)
 (*                                                                          *)
-(*  (1) a monitor over ONE behaviour of the ticking stepper (composed with  *)
-(*      the detailed model in TLC, and run over recorded traces): after a   *)
-(*      tick whose decision was "may block", every further tick without an  *)
-(*      input in between is silent and the decision stays "may block";      *)
-(*      "may block" implies "idle".                                         *)
+(*  (1) a monitor over ONE behaviour of the ticking stepper (folded over    *)
+(*      recorded whole-history lanes; usable with the generic trace         *)
+(*      validation): after a tick whose decision was "may block", every     *)
+(*      further tick without an input in between is silent and the          *)
+(*      decision stays "may block"; "may block" implies "idle".             *)
+(*      At model level the stronger state invariant IdleTickIsStutter       *)
+(*      (Kanata.tla) is what TLC checks on the L1 instances.                *)
 (*                                                                          *)
 (*  (2) a relation between TWO behaviours recorded from the code from the   *)
 (*      same prefix ending in "may block":                                  *)
@@ -28,6 +30,10 @@
 (*      against the blocking stepper (every tick after a "may block"        *)
 (*      decision skipped until the next input), which is what the real      *)
 (*      processing loop executes.                                            *)
+(*                                                                          *)
+(*  (3) the real processing thread against the stepper on a                 *)
+(*      time-insensitive configuration: the same OS events in the same      *)
+(*      order (LoopErr).                                                    *)
 (*                                                                          *)
 (* Outputs are compared by their effect on the OS key state (Obs!Eff).      *)
 (***************************************************************************)
